@@ -116,8 +116,10 @@ fn main() {
                     "close_race" => live::close_race(rounds.min(400), seed),
                     "protocol_storm" => live::protocol_storm((rounds / 4).max(10), seed),
                     "ttl_mix" => live::ttl_mix(rounds * 1500),
-                    "workers_exit" => live::workers_exit((rounds / 10).max(6)),
+                    "workers_exit" => live::workers_exit((rounds / 5).max(12)),
                     "async_barrier" => live::async_barrier(rounds),
+                    "invariants" => invariants::sync_invariants((rounds / 10).max(10), seed, &arg(&args, "--prop").unwrap_or_else(|| "all".to_string())),
+                    "async_invariants" => invariants::async_invariants((rounds / 10).max(10), seed, &arg(&args, "--prop").unwrap_or_else(|| "all".to_string())),
                     "remove_full" => live::remove_full((rounds / 10).max(10), false),
                     "async_remove_full" => live::remove_full((rounds / 10).max(10), true),
                     _ => return,
